@@ -86,6 +86,13 @@ CHECKS = {
   text="Targeted invariant probes (with and without pending commands), grammar-generated responses of every kind the client parses with boundary numbers, byte/token mutations, raw garbage, 16 scaling families (8x range of N) and deep-nesting probes to 10^6 levels, each against a client with 20 pending commands of every kind. Decides: no reader or accessor panic, no fatal recursion, no zero/dynamic numbers delivered without error, no super-linear allocation per input byte.",
   design_ref="DESIGN.md §3 C11",
   note="CPU time is recorded nowhere as a verdict (allocation counters only); set-enumerating accessors are called only for spans <= 2*10^6; one known finding (ESEARCH span) is listed in known_findings.json."),
+
+ "C12": dict(
+  category="exploration",
+  technique="runtime trace monitor: scripted conformant server on the instrumented in-process connection; after every scripted line the vconn park signal (reader blocked with nothing pending) is the barrier at which Client.State()/Mailbox() are compared with a reference interpretation of the transcript; per-command exactly-once completion, status and data accounting; race detector on",
+  text="Random sets of 2..6 unambiguous pipelined commands with random outcomes (OK with/without text, NO/BAD with/without codes), answered in random order-preserving interleavings with unilateral EXISTS/EXPUNGE/FLAGS/PERMANENTFLAGS in between; state sequences around SELECT OK/NO/BAD, [CLOSED], UNSELECT/CLOSE, LOGOUT; tagged refusal of a synchronising literal with another command in flight; FETCH with '*' sets.",
+  design_ref="DESIGN.md §3 C12",
+  note="During a SELECT in progress the client may report either the old mailbox unchanged or no mailbox. Trusts the reference interpreter in checks/c12."),
 }
 
 NOT_YET = "check not built yet in this round (planned in DESIGN.md §3; runtime monitoring applies)"
